@@ -7,7 +7,7 @@ CONSTANTS
   Multi = FALSE
   LCfg <- Cfg2q
   TokOf <- Tok2
-  Homes <- HomesAll2
+  Homes <- Homes2q
   WaitModes = {2}
   LockParts = {1}
   ReqStates = {"P", "A", "I", "D"}
